@@ -555,7 +555,9 @@ def run(ctx):
     ctx.rule('R07s', 'latex2text takes no element by number out of a whitespace split (`x.split()[0]`, `x.split(None, 1)[0]`) '
                      'unless the path has established that x holds a non-blank character (x.strip() true, or x true after x was '
                      'stripped): for an empty or blank text the split is the empty list and IndexError escapes latex_to_text '
-                     '(the blank between two constructs is such a text) (exercised on a built-in example on every run)', 1)
+                     '(the blank between two constructs is such a text); likewise `x.splitlines(..)[k]` only where x is known to be '
+                     'non-empty -- the post-space of a comment that ends the input is the empty string '
+                     '(exercised on built-in examples on every run)', 1)
 
     def _ws_split_index(fnode_):
         stripped_ = {a_.targets[0].id for a_ in iter_own(fnode_) if isinstance(a_, ast.Assign) and len(a_.targets) == 1
@@ -575,6 +577,25 @@ def run(ctx):
             ok_ = (r_ + '.strip()', True) in atoms_ or ((r_, True) in atoms_ and r_ in stripped_) or \
                 ('not ' + r_ + '.strip()', False) in atoms_
             yield x_, r_, ok_
+        # `x.splitlines(...)[k]`: the list is empty exactly when x is the empty string
+        for x_ in iter_own(fnode_):
+            if not (isinstance(x_, ast.Subscript) and isinstance(x_.ctx, ast.Load) and isinstance(x_.slice, ast.Constant)
+                    and isinstance(x_.slice.value, int) and isinstance(x_.value, ast.Call)
+                    and call_name(x_.value) == 'splitlines' and call_recv(x_.value) is not None):
+                continue
+            r_ = unparse(call_recv(x_.value))
+            atoms_ = set()
+            for t_, p_ in list(atomic_facts(x_)) + list(_scf7(x_)):
+                for a_, ap_ in symex._atoms(t_, p_):
+                    atoms_.add((unparse(a_), ap_))
+            ok_ = (r_, True) in atoms_ or ('not ' + r_, False) in atoms_ or (r_ + " == ''", False) in atoms_ or \
+                (r_ + " != ''", True) in atoms_ or ('len(%s)' % r_, True) in atoms_ or \
+                ('len(%s) == 0' % r_, False) in atoms_ or ('len(%s) > 0' % r_, True) in atoms_
+            yield x_, r_, ok_
+    ex7b_ = ast.parse('def f(node):\n    nl = node.comment_post_space.splitlines(True)[0]\n    return nl\n')
+    core.set_parents(ex7b_)
+    if [ok_ for _x, _r, ok_ in _ws_split_index(ex7b_.body[0])] != [False]:
+        raise AnalysisError('R07s: the splitlines rule no longer fires on its built-in example')
     ex7_ = ast.parse('def f(x, col):\n    x = x.strip()\n    if col > 3 and len(x.split(None, 1)[0]) > 2:\n        return 1\n    return 0\n')
     core.set_parents(ex7_)
     if [ok_ for _x, _r, ok_ in _ws_split_index(ex7_.body[0])] != [False]:
